@@ -848,7 +848,36 @@ class Evaluator:
             parts = self._partitions(ctx)
         out = [None] * t.n
         gvals = []
+        keys = delim = None
+        if op == "str.join":
+            # the SQLite of this sandbox has neither string_agg nor ordered aggregates: Polars only
+            self.env.pl_only = True
+            if x.fam not in ("str", "null"):
+                raise RefReject("DataTypeError", "str.join of a non-string")
+            delim = dec(args[1][1]) if len(args) > 1 else ""
+            arr = ctx.get("arrange")
+            if arr:
+                keys = [(self.rows(o[0]).vals, bool(o[1]), o[2]) for o in arr]
+            elif not t.base_pl:
+                raise OutOfDomain("str.join over an undefined row order")
         for rows in parts:
+            if op == "str.join":
+                order = list(rows)
+                if keys is not None:
+                    order, ranks = order_and_ranks(t.n, keys, rows)
+                    live = [i for i in order if x.vals[i] is not None]
+                    if len({ranks[i] for i in live}) != len(live):
+                        raise OutOfDomain("ties in arrange= of str.join")
+                vals = [x.vals[i] for i in order]
+                if any(v is UNDEF for v in vals):
+                    r = UNDEF
+                else:
+                    vals = [v for v in vals if v is not None]
+                    r = delim.join(vals) if vals else None  # nulls are skipped; nothing to join gives null
+                gvals.append(r)
+                for i in rows:
+                    out[i] = r
+                continue
             r = self.reduce(op, x.fam if x is not None else None,
                             [x.vals[i] for i in rows] if x is not None else [], len(rows),
                             [filt[i] for i in rows] if filt is not None else None)
